@@ -133,7 +133,15 @@ fn check_slice(c: &SliceCase) -> Option<Failure> {
             format!("Ok, dst={} cursor={}", hex(&obs.dst), obs.cursor),
         ),
         (Ok(Err(e)), Some(_)) => mk("err-but-admissible", "Ok".into(), format!("Err({e})")),
-        (Ok(Err(_)), None) => None,
+        (Ok(Err(_)), None) => {
+            // a failed copy consumes nothing: the cursor stays where it was (otherwise the next
+            // read/write silently skips bits)
+            if obs.cursor != start {
+                mk("cursor-moved-on-err", format!("cursor={start}"), format!("cursor={}", obs.cursor))
+            } else {
+                None
+            }
+        }
         (Ok(Ok(())), Some(m)) => {
             let l = elen.unwrap();
             let got = unpack(&obs.dst);
@@ -199,6 +207,45 @@ fn fill_pattern(kind: u8, n: usize) -> Vec<u8> {
         1 => vec![0x00; n],
         2 => (0..n).map(|i| (i as u8).wrapping_mul(37).wrapping_add(0xA5)).collect(),
         _ => unreachable!(),
+    }
+}
+
+/// Part A2: long copies (buffers of 12/20/40 bytes), every (src offset 0..15, dst position 0..15,
+/// length), three fills x three patterns: reaches any word-wise fast path (>= 8 whole bytes).
+fn part_a2_tasks(tier: Tier) -> Vec<(bool, usize, u8, u8)> {
+    let sizes: &[usize] = if tier.is_thorough() { &[12, 20, 40] } else { &[12, 20] };
+    let mut t = vec![];
+    for write in [true, false] {
+        for &n in sizes {
+            for sp in 0..3u8 {
+                for df in 0..3u8 {
+                    t.push((write, n, sp, df));
+                }
+            }
+        }
+    }
+    t
+}
+
+fn run_a2_task(task: (bool, usize, u8, u8), evals: &mut u64, nontrivial: &mut u64, fails: &mut BTreeMap<String, (u64, Failure)>) {
+    let (write, n, sp, df) = task;
+    let src = fill_pattern(sp, n);
+    let dst = fill_pattern(df, n);
+    for src_off in 0..16 {
+        for dst_pos in 0..16 {
+            for len in 0..=n * 8 - 15 {
+                let c = SliceCase { write, entry: 0, src: src.clone(), src_off, dst: dst.clone(), dst_pos, len };
+                *evals += 1;
+                if len > 0 {
+                    *nontrivial += 1;
+                }
+                if let Some(mut f) = check_slice(&c) {
+                    f.class = f.class.replacen("slice.", "slice-long.", 1);
+                    let e = fails.entry(f.class.clone()).or_insert((0, f));
+                    e.0 += 1;
+                }
+            }
+        }
     }
 }
 
@@ -268,6 +315,11 @@ fn part_a(tier: Tier) -> PartAResult {
                 }
             }
         }
+        for (ti, task) in part_a2_tasks(tier).into_iter().enumerate() {
+            if ti % n == i {
+                run_a2_task(task, &mut evals, &mut nontrivial, &mut fails);
+            }
+        }
         vcore::shard::emit_shard_result(&json!({"evals": evals, "nontrivial": nontrivial, "failures": failures_to_json(&fails), "samples": samples}));
     }
     let mut out = PartAResult { evals: 0, nontrivial: 0, failures: BTreeMap::new(), samples: vec![] };
@@ -316,6 +368,7 @@ enum BbAct {
     RWithOffset(u8),  // read_bits_with_offset into 2-byte dst
     RReset,
     RAt(u8),          // with_read_position_at(p, read_bit)
+    RDstShort,        // read 9 bits into a 1-byte destination => must be Err and consume nothing
 }
 
 fn bb_alphabet(full: bool) -> Vec<BbAct> {
@@ -328,9 +381,9 @@ fn bb_alphabet(full: bool) -> Vec<BbAct> {
             }
         }
         v.extend([WBits(1), WBits(3), WWithOffset(5), WWithLen(17), WAt(0, true), WAt(0, false), WAt(5, true), WAt(5, false)]);
-        v.extend([WFail, WFailOffset, RBit, RLen(1), RLen(8), RLen(17), ROffLen(3, 9), ROffLen(1, 17), RBits(1), RBits(2), RWithOffset(3), RReset, RAt(0), RAt(5)]);
+        v.extend([WFail, WFailOffset, RBit, RLen(1), RLen(8), RLen(17), ROffLen(3, 9), ROffLen(1, 17), RBits(1), RBits(2), RWithOffset(3), RReset, RAt(0), RAt(5), RDstShort]);
     } else {
-        v.extend([WOffLen(3, 7), WOffLen(0, 17), WOffLen(3, 24), WBits(1), WAt(5, true), WFail, RBit, RLen(8), ROffLen(3, 9), RLen(17), RReset]);
+        v.extend([WOffLen(3, 7), WOffLen(0, 17), WOffLen(3, 24), WBits(1), WAt(5, true), WFail, RBit, RLen(8), ROffLen(3, 9), RLen(17), RReset, RDstShort]);
     }
     v
 }
@@ -378,6 +431,7 @@ fn bb_step(st: &BbState, a: BbAct) -> StepOut {
                 Ok(None)
             }
             RAt(p) => bb.with_read_position_at(p as usize, |x| x.read_bit()).map(Some).map_err(e),
+            RDstShort => bb.read_bits_with_offset_len(&mut dst3[..1], 0, 9).map(|_| None).map_err(e),
         }
     });
     let res = match res {
@@ -441,6 +495,7 @@ fn bb_step(st: &BbState, a: BbAct) -> StepOut {
             exp_r = 0;
             Exp::Nothing
         }
+        RDstShort => Exp::ReadInto(None),
     };
     let now: BbState = (bb.content().to_vec(), bb.bit_len(), {
         // read position is not exposed; recover it by probing is impossible -> use Debug output
@@ -486,10 +541,9 @@ fn bb_step(st: &BbState, a: BbAct) -> StepOut {
             if let Some((k, e, o)) = inv(&now, &model) {
                 return StepOut::Fail(format!("after-failed-read.{k}"), e, o);
             }
-            // the statement does not constrain the cursor after Err; keep exploring from what the
-            // implementation holds only if it is still a constructible state
-            if now.2 > now.0.len() * 8 {
-                return StepOut::Fail("read-pos-beyond-buffer-after-err".into(), format!("r<={}", now.0.len() * 8), format!("r={}", now.2));
+            // a failed read consumes nothing
+            if now.2 != r {
+                return StepOut::Fail("read-cursor-moved-on-err".into(), format!("r={r}"), format!("r={}", now.2));
             }
             return StepOut::Next(now);
         }
@@ -510,7 +564,7 @@ fn bb_step(st: &BbState, a: BbAct) -> StepOut {
         }
         Exp::Nothing => {}
     }
-    if matches!(a, RBit | RAt(_) | RLen(_) | ROffLen(..) | RBits(_) | RWithOffset(_) | RReset) {
+    if matches!(a, RBit | RAt(_) | RLen(_) | ROffLen(..) | RBits(_) | RWithOffset(_) | RReset | RDstShort) {
         if let Some((k, e, o)) = inv(&now, &model) {
             return StepOut::Fail(format!("read-changed-buffer.{k}"), e, o);
         }
@@ -539,6 +593,7 @@ fn act_class(a: BbAct) -> &'static str {
         RWithOffset(_) => "read_bits_with_offset",
         RReset => "reset_read_position",
         RAt(_) => "with_read_position_at",
+        RDstShort => "read_into_short_destination",
     }
 }
 
@@ -646,6 +701,7 @@ enum BiAct {
     SetPos(u8),
     SetLen(u8),
     RAt(u8),
+    RDstShort,
 }
 
 fn bi_alphabet() -> Vec<BiAct> {
@@ -655,7 +711,7 @@ fn bi_alphabet() -> Vec<BiAct> {
         v.push(SetPos(p));
         v.push(SetLen(p));
     }
-    v.extend([RAt(0), RAt(5), RAt(30)]);
+    v.extend([RAt(0), RAt(5), RAt(30), RDstShort]);
     v
 }
 
@@ -690,6 +746,7 @@ fn bi_step(st: (usize, usize), a: BiAct) -> Result<(usize, usize), (String, Stri
                 if got != (l as usize).min(24) { Err(format!("set_len returned {got}")) } else { Ok(None) }
             }
             RAt(p) => b.with_read_position_at(p as usize, |x| x.read_bit()).map(Some).map_err(e),
+            RDstShort => b.read_bits_with_offset_len(&mut dst3[..1], 0, 9).map(|_| None).map_err(e),
         };
         let rem = b.remaining();
         (out, b.pos(), b.len(), rem)
@@ -719,6 +776,9 @@ fn bi_step(st: (usize, usize), a: BiAct) -> Result<(usize, usize), (String, Stri
             // statement does not say whether it is Ok or Err
             if out.is_ok() && n != 0 {
                 return Err(("read-ok-beyond-visible-len".into(), "Err(EndOfStream)".into(), format!("Ok dst={} pos={npos}", hex(&dst3))));
+            }
+            if out.is_err() && (npos != pos || nlen != len) {
+                return Err(("read-cursor-moved-on-err".into(), format!("pos={pos} len={len}"), format!("pos={npos} len={nlen}")));
             }
             Ok((npos, nlen))
         }
@@ -754,6 +814,15 @@ fn bi_step(st: (usize, usize), a: BiAct) -> Result<(usize, usize), (String, Stri
         RBits(n) => read_into(0, n as usize * 8, n as usize * 8),
         RWithOffset(o) => read_into(o as usize, 16 - o as usize, 16),
         ROffLen(o, n) => read_into(o as usize, n as usize, 24),
+        RDstShort => {
+            if out.is_ok() {
+                return Err(("read-ok-into-short-destination".into(), "Err".into(), "Ok".into()));
+            }
+            if npos != pos || nlen != len {
+                return Err(("read-cursor-moved-on-err".into(), format!("pos={pos} len={len}"), format!("pos={npos} len={nlen}")));
+            }
+            Ok((npos, nlen))
+        }
         SetPos(p) => {
             if let Err(e) = out {
                 return Err(("set-pos".into(), "clamped position".into(), e));
@@ -786,6 +855,7 @@ fn bi_class(a: BiAct) -> &'static str {
         SetPos(_) => "set_pos",
         SetLen(_) => "set_len",
         RAt(_) => "with_read_position_at",
+        RDstShort => "read_into_short_destination",
     }
 }
 
@@ -940,6 +1010,6 @@ fn main() {
     report.finish(cov, vec![
         "Vec<bool> model (vcore::refbits) is the trusted reference".into(),
         "BitBuffer read position is observed through the Debug impl (no accessor exists)".into(),
-        "on Err the statement constrains neither cursor nor destination; only 'Err, no panic' and the growth invariant are checked".into(),
+        "on Err: 'Err, no panic', cursor unchanged (a failed call consumes nothing) and the growth invariant are checked; the destination content after Err is not constrained".into(),
     ])
 }
